@@ -26,6 +26,7 @@ package keyed
 //@ ghostmap chof: ref -> ref once
 //@ ghostmap xfin: ref -> ref owned
 //@ ghostmap xdone: ref -> bool by xfin
+//@ ghostmap recof: ref -> ref once
 //
 //@ object Keyed
 //@   props C06 C07 C13
@@ -41,6 +42,10 @@ package keyed
 //@   inv R1[C07]: forall rr: *runningRoutine {rr.k} :: rr.k == this && rr.ctx != nil && !rr.exited ==> rr.exitedCh != nil && chof(rr.ctx) == rr.exitedCh
 //@   inv R2[C07]: forall rr: *runningRoutine {rr.k} :: rr.k == this && rr.ctx != nil && rr.exited ==> chof(rr.ctx) != nil && xdone(chof(rr.ctx))
 //@   inv D0[C06]: forall rr: *runningRoutine {rr.k} :: rr.k == this && rr.deferRemove != nil ==> this.releaseDelay != 0
+//@   inv X1[C07]: forall rr: *runningRoutine {rr.k} :: rr.k == this && rr.ctx != nil && !cancelled(rr.ctx) ==> rr.ctxCancel != nil && cancelOf(rr.ctxCancel) == rr.ctx
+//@   inv X2[C07]: forall rr: *runningRoutine {rr.k} :: rr.k == this && rr.ctx != nil && !cancelled(rr.ctx) ==> in(this.routines, rr.key) && this.routines[rr.key] == rr && this.ctx != nil && ctxparent(rr.ctx) == this.ctx
+//@   inv X3[C07]: forall rr: *runningRoutine, c: ref {recof(c), rr.k} :: rr != nil && c != nil && recof(c) == rr && rr.k == this && !cancelled(c) ==> rr.ctx == c
+//@   stable SX3: forall rr: *runningRoutine, c: ref {recof(c), rr.k} :: rr != nil && c != nil && recof(c) == rr && rr.k == this && !cancelled(c) ==> rr.ctx == c
 //@   inv K3[C06]: forall key: any {this.routines[key]} :: in(this.routines, key) ==> this.routines[key].key == key
 //
 //@ ginv E0: forall ch: ref {xowner(ch)} :: xowner(ch) != nil ==> ch != nil && allocated(ch) && madein(ch, "(*runningRoutine).start")
@@ -59,11 +64,15 @@ package keyed
 //@   opt holds = k.mtx
 //@   ensures keepmap: r.k.routines == old(r.k.routines) && r.k.ctx == old(r.k.ctx) && (forall key: any {r.k.routines[key]} :: in(r.k.routines, key) == old(in(r.k.routines, key)) && r.k.routines[key] == old(r.k.routines[key]))
 //@   ensures keeptimers: forall rr: *runningRoutine {rr.deferRemove} :: rr.deferRemove == old(rr.deferRemove)
+//@   opt leaves = X2
+//@   ensures otherctx[C07]: forall rr: *runningRoutine {rr.ctx} :: rr != r ==> rr.ctx == old(rr.ctx) && rr.ctxCancel == old(rr.ctxCancel)
+//@   ensures ownctx[C07]: r.ctx == nil || cancelled(r.ctx) || (r.ctx == old(r.ctx) && r.ctxCancel == old(r.ctxCancel)) || (ctxparent(r.ctx) == ctx && r.ctxCancel != nil && cancelOf(r.ctxCancel) == r.ctx)
 //@   ensures otherretry: forall rr: *runningRoutine {rr.deferRetry} :: rr != r ==> rr.deferRetry == old(rr.deferRetry)
 //@   opt frame = skip
 //@   requires r != nil && r.k != nil && ctx != nil
 //@   requires current: in(r.k.routines, r.key) && r.k.routines[r.key] == r
 //@   requires chain: waitCh == rlast(r) || rlast(r) == nil || closed(rlast(r))
+//@   assert go 1: oldcancelled[C07]: old(r.ctx) == nil || cancelled(old(r.ctx))
 //@   assert go 1: chain: waitCh == rlast(r) || rlast(r) == nil || closed(rlast(r))
 //@   ghost go 1: rlast(r) := exitedCh
 //@   ghost go 1: xowner(exitedCh) := r.k
@@ -72,13 +81,15 @@ package keyed
 //@   ghost go 1: xrun(exitedCh) := child
 //@   ghost go 1: xfin(exitedCh) := child
 //@   ghost go 1: chof(r.ctx) := exitedCh
+//@   ghost go 1: recof(r.ctx) := r
+//@   requires ctxcur: ctx == r.k.ctx
 //
 //@ func (*runningRoutine).execute
 //@   props C07 C13
 //@   opt frame = skip
 //@   opt inherits = xrun xfin
 //@   requires r != nil && r.k != nil && ctx != nil && cancel != nil && r.routine != nil
-//@   requires mine: exitedCh != nil && xrun(exitedCh) == me && xfin(exitedCh) == me && xowner(exitedCh) == r.k && pred(exitedCh) == waitCh && chof(ctx) == exitedCh
+//@   requires mine: exitedCh != nil && xrun(exitedCh) == me && xfin(exitedCh) == me && xowner(exitedCh) == r.k && pred(exitedCh) == waitCh && chof(ctx) == exitedCh && cancelOf(cancel) == ctx
 //@   ghost unlock 1: xdone(exitedCh) := true
 //@   ghost unlock 1: xfin(exitedCh) := nil
 //@   assert select 1: selects(waitCh) && selects(done(ctx))
@@ -122,6 +133,10 @@ package keyed
 //@   loop 1 invariant chain: forall key: any {k.routines[key]} :: in(k.routines, key) ==> k.routines[key].exitedCh == rlast(k.routines[key]) || (k.routines[key].exitedCh == nil && (rlast(k.routines[key]) == nil || closed(rlast(k.routines[key]))))
 //@   loop 1 invariant records: forall rr: *runningRoutine {rr.k} :: rr.k == k && rr.ctx != nil ==> chof(rr.ctx) != nil && ((!rr.exited ==> rr.exitedCh != nil && chof(rr.ctx) == rr.exitedCh) && (rr.exited ==> xdone(chof(rr.ctx))))
 //@   loop 1 invariant entries: forall key: any {k.routines[key]} :: in(k.routines, key) ==> k.routines[key] != nil && k.routines[key].k == k && k.routines[key].key == key
+//@   loop 1 invariant livecancel[C07]: forall rr: *runningRoutine {rr.k} :: rr.k == k && rr.ctx != nil && !cancelled(rr.ctx) ==> rr.ctxCancel != nil && cancelOf(rr.ctxCancel) == rr.ctx
+//@   loop 1 invariant liveinmap[C07]: forall rr: *runningRoutine {rr.k} :: rr.k == k && rr.ctx != nil && !cancelled(rr.ctx) ==> in(k.routines, rr.key) && k.routines[rr.key] == rr && (visited(rr.key) ==> k.ctx != nil && ctxparent(rr.ctx) == k.ctx) && (!visited(rr.key) ==> old(k.ctx) != nil && ctxparent(rr.ctx) == old(k.ctx))
+//@   loop 1 invariant liverec[C07]: forall rr: *runningRoutine, c: ref {recof(c), rr.k} :: rr != nil && c != nil && recof(c) == rr && rr.k == k && !cancelled(c) ==> rr.ctx == c
+//@   loop 1 invariant newctx[C07]: k.ctx == ctx && (sameCtx ==> ctx == old(k.ctx))
 //
 //@ func (*Keyed).ClearContext
 //@   props C07
@@ -163,6 +178,9 @@ package keyed
 //@   loop 1 invariant records: forall rr: *runningRoutine {rr.k} :: rr.k == k && rr.ctx != nil ==> chof(rr.ctx) != nil && ((!rr.exited ==> rr.exitedCh != nil && chof(rr.ctx) == rr.exitedCh) && (rr.exited ==> xdone(chof(rr.ctx))))
 //@   loop 1 invariant entries: forall key: any {k.routines[key]} :: in(k.routines, key) ==> k.routines[key] != nil && k.routines[key].k == k && k.routines[key].key == key
 //@   loop 1 invariant timers: forall rr: *runningRoutine {rr.k} :: rr.k == k && rr.deferRemove != nil ==> k.releaseDelay != 0
+//@   loop 1 invariant livecancel[C07]: forall rr: *runningRoutine {rr.k} :: rr.k == k && rr.ctx != nil && !cancelled(rr.ctx) ==> rr.ctxCancel != nil && cancelOf(rr.ctxCancel) == rr.ctx
+//@   loop 1 invariant liveinmap[C07]: forall rr: *runningRoutine {rr.k} :: rr.k == k && rr.ctx != nil && !cancelled(rr.ctx) ==> in(k.routines, rr.key) && k.routines[rr.key] == rr && k.ctx != nil && ctxparent(rr.ctx) == k.ctx
+//@   loop 1 invariant liverec[C07]: forall rr: *runningRoutine, c: ref {recof(c), rr.k} :: rr != nil && c != nil && recof(c) == rr && rr.k == k && !cancelled(c) ==> rr.ctx == c
 //@   loop 1 invariant sub: forall key: any {routines[key]} :: in(routines, key) ==> routines[key] != nil && in(k.routines, key) && k.routines[key] == routines[key] && routines[key].deferRemove == nil
 //@   loop 1 invariant done: forall j: int {keys[j]} :: 0 <= j && j <= rangeindex ==> in(routines, keys[j])
 //@   loop 1 invariant grown: forall key: any {k.routines[key]} :: (csold(in(k.routines, key)) ==> in(k.routines, key) && k.routines[key] == csold(k.routines[key])) && (in(k.routines, key) ==> csold(in(k.routines, key)) || in(routines, key))
@@ -176,6 +194,9 @@ package keyed
 //@   loop 2 invariant records: forall rr: *runningRoutine {rr.k} :: rr.k == k && rr.ctx != nil ==> chof(rr.ctx) != nil && ((!rr.exited ==> rr.exitedCh != nil && chof(rr.ctx) == rr.exitedCh) && (rr.exited ==> xdone(chof(rr.ctx))))
 //@   loop 2 invariant entries: forall key: any {k.routines[key]} :: in(k.routines, key) ==> k.routines[key] != nil && k.routines[key].k == k && k.routines[key].key == key
 //@   loop 2 invariant timers: forall rr: *runningRoutine {rr.k} :: rr.k == k && rr.deferRemove != nil ==> k.releaseDelay != 0
+//@   loop 2 invariant livecancel[C07]: forall rr: *runningRoutine {rr.k} :: rr.k == k && rr.ctx != nil && !cancelled(rr.ctx) ==> rr.ctxCancel != nil && cancelOf(rr.ctxCancel) == rr.ctx
+//@   loop 2 invariant liveinmap[C07]: forall rr: *runningRoutine {rr.k} :: rr.k == k && rr.ctx != nil && !cancelled(rr.ctx) ==> in(k.routines, rr.key) && k.routines[rr.key] == rr && k.ctx != nil && ctxparent(rr.ctx) == k.ctx
+//@   loop 2 invariant liverec[C07]: forall rr: *runningRoutine, c: ref {recof(c), rr.k} :: rr != nil && c != nil && recof(c) == rr && rr.k == k && !cancelled(c) ==> rr.ctx == c
 //@   loop 2 invariant sub: forall key: any {routines[key]} :: in(routines, key) ==> routines[key] != nil && in(k.routines, key) && k.routines[key] == routines[key] && routines[key].deferRemove == nil
 //@   loop 2 invariant done: forall j: int {keys[j]} :: 0 <= j && j < len(keys) ==> in(routines, keys[j])
 //@   loop 2 invariant handled: forall key: any {k.routines[key]} :: in(k.routines, key) && visited(key) && !in(routines, key) ==> k.routines[key].deferRemove != nil && k.releaseDelay != 0
